@@ -92,11 +92,17 @@ class PathState:
         self.eqs = {}        # symbol -> constant, from path conditions
         self.lfmem = {}      # (obj, off, nbytes) -> Lf stored there
         self.divs = {}       # (repr(x), c) -> (quotient symbol, remainder symbol, x, c)
+        self.start_mem = {}
+        self.start_lfmem = {}
+        self.objgen = {}     # obj -> generation (bumped when a loop head havocs the whole object)
 
     def clone(self):
         p = PathState()
         p.lfmem = dict(self.lfmem)
         p.divs = dict(self.divs)
+        p.objgen = dict(self.objgen)
+        p.start_mem = self.start_mem
+        p.start_lfmem = self.start_lfmem
         p.env = dict(self.env)
         p.mem = dict(self.mem)
         p.events = list(self.events)
@@ -108,7 +114,8 @@ class PathState:
 
 
 class Exec:
-    def __init__(self, f, call_handler, havoc=None, word_args=(), unroll=False, arg_consts=None):
+    def __init__(self, f, call_handler, havoc=None, word_args=(), unroll=False, arg_consts=None, int_cells=None, auto=False,
+                 split_max=8, starts=None, pre_conds=(), callee_writes=None):
         """call_handler(ex, path, inst, callee, argvalues) -> result value or None
         havoc(ex, path, header) is called when a fresh iteration starts at a loop header"""
         self.f = f
@@ -121,6 +128,12 @@ class Exec:
         self.word_args = set(word_args)
         self.unroll = unroll
         self.arg_consts = dict(arg_consts or {})
+        self.int_cells = int_cells      # predicate (obj, off, nbytes) -> treat the cell as an integer (linear form), not as data bits
+        self.auto = auto                # loops whose header test is decided are followed; others get one generic iteration
+        self.split_max = split_max
+        self.starts = starts            # list of (label, setup(path)) initial classes
+        self.pre_conds = list(pre_conds)
+        self.callee_writes = callee_writes or {}   # callee -> {arg index: (offset, nbytes)} it may write (else: whole object)
 
     # -- value helpers ---------------------------------------------------------
     def val(self, p, v):
@@ -173,6 +186,10 @@ class Exec:
         return r
 
     # -- memory ------------------------------------------------------------------
+    def _memsym(self, p, obj, off):
+        g = p.objgen.get(obj, 0)
+        return ("mem", obj, off) if not g else ("mem", obj, off, g)
+
     def load(self, p, ptr, nbytes, I=None):
         if is_word(ptr):
             return [gf2.TOP] * (8 * nbytes)
@@ -190,16 +207,16 @@ class Exec:
             if symoff is not None:
                 cell = p.mem.get((obj, (symoff, k)))
                 if cell is None:
-                    cell = [gf2.TOP] * 8 if obj[0] == "alloca" else gf2.sym_word(("mem", obj, (symoff, k)), 8)
+                    cell = [gf2.TOP] * 8 if (obj[0] == "alloca" and not p.objgen.get(obj)) else gf2.sym_word(self._memsym(p, obj, (symoff, k)), 8)
                 bits.extend(cell)
                 continue
             cell = p.mem.get((obj, o + k))
             if cell is None:
-                if obj[0] == "alloca":
+                if obj[0] == "alloca" and not p.objgen.get(obj):
                     cell = [gf2.TOP] * 8   # uninitialised local byte
                     p.events.append(("read-uninit", I.id if I else None, obj, o + k))
                 else:
-                    cell = gf2.sym_word(("mem", obj, o + k), 8)
+                    cell = gf2.sym_word(self._memsym(p, obj, o + k), 8)
                 p.events.append(("in", obj, o + k, I.id if I else None))
             bits.extend(cell)
         return bits
@@ -235,8 +252,15 @@ class Exec:
     # -- execution -----------------------------------------------------------------
     def run(self, max_paths=400):
         f = self.f
-        start = PathState()
-        work = [(0, None, start, "entry")]
+        work = []
+        for (lab, setup) in (self.starts or [("", None)]):
+            start = PathState()
+            start.conds.extend(self.pre_conds)
+            if setup:
+                setup(self, start)
+            if lab:
+                start.events.append(("class", "start", lab))
+            work.append((0, None, start, "entry"))
         started_heads = set()
         while work:
             b, pred, p, kind = work.pop()
@@ -260,7 +284,12 @@ class Exec:
                 p.ncall += 0
                 if len(p.blocks) > 4000:
                     raise Broken("irx(unroll): path too long in %s (loop bound not constant?)" % f.name)
-            if b in self.heads and pred != "fresh" and not self.unroll:
+            follow = False
+            if self.auto and b in self.heads and pred != "fresh":
+                follow = self._header_decided(p, b, pred)
+                if len(p.blocks) > 6000:
+                    raise Broken("irx(auto): path too long in %s" % f.name)
+            if b in self.heads and pred != "fresh" and not self.unroll and not follow:
                 L = self.heads[b]
                 if pred in L["blocks"]:
                     # back edge: bind phi values for reporting, then stop
@@ -303,8 +332,12 @@ class Exec:
                                 n.env[("i", I.id)] = gf2.sym_word(("hdw", I.id), I.bits)
                             else:
                                 n.env[("i", I.id)] = Lf.s(("hd", I.id))
-                        if self.havoc:
+                        if self.havoc == "auto":
+                            self._auto_havoc(n, L)
+                        elif self.havoc:
                             self.havoc(self, n, b)
+                        n.start_mem = dict(n.mem)
+                        n.start_lfmem = dict(n.lfmem)
                         work.append((b, "fresh", n, "iter"))
                     return
             p.blocks.append(b)
@@ -378,6 +411,80 @@ class Exec:
                 self._finish(p, ("unreachable", None))
                 return
             raise Broken("irx: unsupported terminator %s in %s" % (t.op, f.name))
+
+    def _header_decided(self, p, b, pred):
+        """would the loop header's exit test be decided by the current (concrete) values?"""
+        f = self.f
+        t = f.term(b)
+        if t.op != "br" or not t.get("cond"):
+            return False
+        q = p.clone()
+        for iid in f.blocks[b].insts:
+            I = f.insts[iid]
+            if I.op == "phi":
+                for inc, pb in I.get("inc"):
+                    if pb == pred:
+                        q.env[("i", I.id)] = self.val(p, tuple(inc))
+                continue
+            if I.is_dbg() or I.is_lifetime() or I.op in ("br", "ret", "switch", "unreachable"):
+                continue
+            if I.op in ("store", "call"):
+                return False
+            try:
+                self._step(q, I)
+            except Broken:
+                return False
+        c = q.env.get(t.ops[0]) if t.ops[0][0] == "i" else self.val(q, t.ops[0])
+        return self._decide(q, c) is not None
+
+    def _auto_havoc(self, p, L):
+        """everything the loop (incl. nested loops and callees given pointers) may write becomes unknown at the head"""
+        f = self.f
+        for b in L["blocks"]:
+            for iid in f.blocks[b].insts:
+                I = f.insts[iid]
+                targets = []
+                if I.op == "store":
+                    targets.append((I.ops[1], I.get("size")))
+                elif I.op == "call" and not I.is_dbg() and not I.is_lifetime():
+                    intr = I.get("intrinsic") or ""
+                    if intr.startswith(("llvm.memcpy", "llvm.memmove", "llvm.memset")):
+                        a = I.call_args()
+                        ln = const_val(a[2]) if a[2][0] == "c" else None
+                        targets.append((a[0], ln))
+                    elif I.callee in self.callee_writes:
+                        for ai, (o_, n_) in self.callee_writes[I.callee].items():
+                            a = I.call_args()[ai]
+                            targets.append((a, ("range", o_, n_)))
+                    else:
+                        for a in I.call_args():
+                            if a[0] in ("i", "a"):
+                                targets.append((a, None))
+                for (ptr, n) in targets:
+                    base, off = ir.ptr_base(f, ptr)
+                    if isinstance(n, tuple):
+                        off = (off + n[1]) if off is not None else None
+                        n = n[2]
+                    if base[0] == "a":
+                        if not f.params[base[1]]["ty"].endswith("*"):
+                            continue
+                        obj = ("arg", base[1])
+                    elif base[0] == "i" and f.insts[base[1]].op == "alloca":
+                        obj = ("alloca", base[1])
+                    else:
+                        continue
+                    if off is not None and n is not None:
+                        for k in range(n):
+                            p.mem[(obj, off + k)] = gf2.sym_word(("hv", L["header"], obj, off + k), 8)
+                        for key in [kk for kk in p.lfmem if kk[0] == obj and kk[1] < off + n and off < kk[1] + kk[2]]:
+                            p.lfmem[key] = Lf.s(("hvi", L["header"], obj, key[1]))
+                    else:
+                        p.objgen[obj] = p.objgen.get(obj, 0) + 1 if ("gen", L["header"], obj) not in p.objgen else p.objgen[obj]
+                        p.objgen[("gen", L["header"], obj)] = 1
+                        for key in [kk for kk in p.mem if kk[0] == obj]:
+                            del p.mem[key]
+                        for key in [kk for kk in p.lfmem if kk[0] == obj]:
+                            del p.lfmem[key]
 
     # conditions are ("icmp", pred, a, b) tuples stored as env values, or Lf/word constants
     def _decide(self, p, c):
@@ -537,7 +644,7 @@ class Exec:
             cand = [x for x in range(lo, hi + 1) if x not in excl]
             if len(cand) == 1:
                 p.eqs[s] = cand[0]
-            elif 1 < len(cand) <= 8 and isinstance(s, tuple) and s[0] == "hd":
+            elif 1 < len(cand) <= self.split_max and isinstance(s, tuple) and s[0] in ("hd", "n", "fld", "rem"):
                 return (s, cand)
         return None
 
@@ -591,6 +698,12 @@ class Exec:
                 ob, of = self.subst(p, ptr).base()
                 if ob is not None and of.const() is not None:
                     lfc = p.lfmem.get((ob, of.const(), n))
+                    if self.int_cells and self.int_cells(ob, of.const(), n):
+                        if lfc is None:
+                            lfc = Lf.s(("fld", ob, of.const(), p.objgen.get(ob, 0)))
+                            p.lfmem[(ob, of.const(), n)] = lfc
+                        p.env[k] = lfc
+                        return
             w = self.load(p, ptr, n, I)
             if lfc is not None and w == gf2.sym_word(("lf", repr(lfc)), 8 * n):
                 p.env[k] = lfc
@@ -601,6 +714,21 @@ class Exec:
             v = self.val(p, o[0])
             ptr = self.val(p, o[1])
             n = I.get("size")
+            if self.int_cells:
+                pp_ = self.val(p, o[1])
+                if not is_word(pp_):
+                    ob_, of_ = self.subst(p, pp_).base()
+                    if ob_ is not None and of_.const() is not None and self.int_cells(ob_, of_.const(), n):
+                        vv_ = v
+                        if is_word(vv_):
+                            cc_ = gf2.is_const(vv_)
+                            vv_ = Lf.c(cc_) if cc_ is not None else Lf.s(("opaque", I.id))
+                        vv_ = self.subst(p, vv_)
+                        if vv_.const() is not None:
+                            vv_ = Lf.c(vv_.const() & ((1 << (8 * n)) - 1))
+                        p.lfmem[(ob_, of_.const(), n)] = vv_
+                        p.events.append(("store-int", I.id, ob_, of_.const(), repr(vv_)))
+                        return
             if not is_word(v):
                 c = v.const()
                 if c is not None:
